@@ -468,3 +468,106 @@ Qed.
 (* the hypothesis is satisfiable: the default configuration (128) is far below the bound *)
 Example conn_id_space_ok_default : conn_id_space_ok 128 = true.
 Proof. reflexivity. Qed.
+
+(* ------------------------------------------------------------------ the bound is needed *)
+(* Without it the fuel CAN run out: a table of 32768 entries to one address holding every even
+   connection id (possible only with max_active_streams > 32768).  The model loop then returns
+   an id that is in use (the Rust loop would not terminate).  The witness is described by a
+   generator and handled by lemmas, not by computation. *)
+Lemma in_keys_has_stream s k : In k (keys (d_streams s)) -> has_stream s k = true.
+Proof.
+  intro H. destruct (has_stream s k) eqn:E; [reflexivity|]. destruct (has_stream_false_not_in _ _ E H).
+Qed.
+
+Lemma cleanup_no_syns s : d_syns s = [] -> cleanup_accept_queue s = (s, []).
+Proof.
+  intro Hs. unfold cleanup_accept_queue. destruct (streams_full s); [reflexivity|].
+  rewrite Hs. cbn [length Nat.add]. rewrite Nat.add_comm. cbn [Nat.add cleanup_loop]. rewrite Hs. reflexivity.
+Qed.
+
+Lemma on_control_connect_syn s addr token s' e :
+  streams_full s = false -> on_control s (CtlConnect addr token) SynSent = (s', e) ->
+  exists q rest,
+    e = EvSentSyn addr (next_free_conn_id (S (length (d_streams s))) s addr (d_next_conn_id s)) q :: rest.
+Proof.
+  intros Hnf. unfold on_control. rewrite Hnf. destruct (next_random _) as [s2 q].
+  destruct (slots_insert _ _); intro H; injection H as _ <-; eauto.
+Qed.
+
+Definition wit_n : nat := Z.to_nat 32768.
+Definition wit_entry (i : nat) : sentry :=
+  {| se_key := {| k_addr := 0; k_conn := 2 * Z.of_nat i |}; se_alive := true; se_id := Z.of_nat i |}.
+Definition wit_state : dstate :=
+  {| d_streams := map wit_entry (seq 0 wit_n); d_connecting := []; d_syns := []; d_next_acc := None;
+     d_chan := []; d_control := [CtlConnect 0 0]; d_next_conn_id := 0; d_max_streams := 32769;
+     d_random := []; d_dead_acceptors := []; d_handed := []; d_next_sid := 32768;
+     d_dead_connectors := []; d_results := [] |}.
+
+Lemma wit_n_Z : Z.of_nat wit_n = 32768.
+Proof. unfold wit_n. apply Z2Nat.id. lia. Qed.
+
+Lemma wit_length : length (d_streams wit_state) = wit_n.
+Proof. cbn [d_streams wit_state]. rewrite map_length, seq_length. reflexivity. Qed.
+
+Lemma wit_keys c : 0 <= c < 32768 -> In {| k_addr := 0; k_conn := 2 * c |} (keys (d_streams wit_state)).
+Proof.
+  intro Hc. cbn [d_streams wit_state]. unfold keys. rewrite map_map. apply in_map_iff.
+  exists (Z.to_nat c). split.
+  - cbn [wit_entry se_key]. rewrite Z2Nat.id by lia. reflexivity.
+  - apply in_seq. pose proof wit_n_Z. lia.
+Qed.
+
+Lemma wit_inv : d_inv wit_state.
+Proof.
+  unfold d_inv. rewrite wit_length, wit_n_Z.
+  cbn [d_streams d_max_streams d_syns d_chan d_connecting wit_state length].
+  unfold ACCEPT_QUEUE_MAX_SYNS, ACCEPT_QUEUE_MAX_ACCEPTORS.
+  split; [|split; [lia|split; [lia|split; [lia|constructor]]]].
+  unfold keys. rewrite map_map. apply NoDup_map_seq. intros i j _ Hij _ Heq.
+  cbn [wit_entry se_key] in Heq. apply (f_equal k_conn) in Heq. cbn [k_conn] in Heq. lia.
+Qed.
+
+Lemma wit_not_full : streams_full wit_state = false.
+Proof. unfold streams_full. rewrite wit_length, wit_n_Z. reflexivity. Qed.
+
+Lemma wit_all_cands i : has_stream wit_state {| k_addr := 0; k_conn := cand 0 i |} = true.
+Proof.
+  apply in_keys_has_stream. unfold cand. destruct i as [|i].
+  - apply (wit_keys 0). lia.
+  - replace ((0 + 2 * Z.of_nat (S i)) mod M16) with (2 * (Z.of_nat (S i) mod 32768)) by (unfold M16; lia).
+    apply wit_keys. lia.
+Qed.
+
+Lemma wit_next_free : next_free_conn_id (S (length (d_streams wit_state))) wit_state 0 0 = 2.
+Proof.
+  destruct (next_free_spec (S (length (d_streams wit_state))) wit_state 0 0) as (j & Hj & Hr & _ & Hstop).
+  rewrite Hr. destruct (Nat.eq_dec j (S (length (d_streams wit_state)))) as [->|Hne].
+  - rewrite wit_length. unfold cand. rewrite Nat2Z.inj_succ, wit_n_Z. reflexivity.
+  - rewrite wit_all_cands in Hstop. assert (true = false) by (apply Hstop; lia). discriminate.
+Qed.
+
+Theorem c12_syn_fresh_needs_bound :
+  exists s o, d_inv s /\ d_max_streams s = 32769 /\
+    c12_syn_fresh_ok (dobs_of s) (syn_keys (snd (dstep s o))) = false.
+Proof.
+  exists wit_state, (DoRunOnce [] (ArmControl SynSent)).
+  split; [exact wit_inv|]. split; [reflexivity|].
+  rewrite dstep_run_once_eq, (cleanup_no_syns wit_state eq_refl).
+  cbn [fold_left arm_step]. change (d_control wit_state) with [CtlConnect 0 0].
+  destruct (on_control (upd_control wit_state []) (CtlConnect 0 0) SynSent) as [s3 e3] eqn:Eoc.
+  destruct (on_control_connect_syn _ _ _ _ _ wit_not_full Eoc) as (q & rest & ->).
+  change (d_streams (upd_control wit_state [])) with (d_streams wit_state).
+  change (d_next_conn_id (upd_control wit_state [])) with 0.
+  assert (Hnf : next_free_conn_id (S (length (d_streams wit_state))) (upd_control wit_state []) 0 0 = 2).
+  { rewrite <- wit_next_free. generalize (S (length (d_streams wit_state))). intro fuel.
+    generalize 0 at 2 4. induction fuel as [|fuel IH]; intro c; cbn [next_free_conn_id]; [reflexivity|].
+    change (has_stream (upd_control wit_state []) {| k_addr := 0; k_conn := c |})
+      with (has_stream wit_state {| k_addr := 0; k_conn := c |}).
+    destruct (has_stream wit_state _); [apply IH|reflexivity]. }
+  rewrite Hnf. cbn [snd app syn_keys flat_map]. unfold c12_syn_fresh_ok. cbn [forallb].
+  apply andb_false_iff. left. apply negb_false_iff. apply existsb_exists.
+  pose proof (wit_keys 1 ltac:(lia)) as Hin. unfold keys in Hin. apply in_map_iff in Hin.
+  destruct Hin as (en & Hk & Hen). exists (se_key en, se_alive en). split.
+  - unfold dobs_of; cbn [ob_streams]. apply in_map_iff. exists en. auto.
+  - cbn [fst]. rewrite Hk. apply skey_eqb_refl.
+Qed.
